@@ -24,7 +24,7 @@ def main():
                "softs spread over several class blocks only guards and maximality are decided")
     t = tier()
     chk.bound("<= 4 soft constraints per block (+ <= 2 inline), 4 fields of 4 bits (values decided for all of them), non-random guard values {0,1,2}; "
-              "%d seeded programs" % (40 if t == "quick" else 500))
+              "%d seeded programs" % (40 if t == "quick" else 6000))
     specs = gen.c05_programs(t, seed())
     chk.extra["rule"] = "one evaluation = one randomize call decided (hard equivalence + soft guard/maximality/priority queries); distinct = distinct (program, call)"
     e1run.run_specs(chk, specs, KINDS, opts={"hooks": [hooks.soft_hook]})
